@@ -20,17 +20,19 @@ EXPLANATION = (
     "(4) Gram consistency of the custom triangularisation rule, R^T R_dot + R_dot^T R = M^T M_dot + M_dot^T M, decided by rewriting in a free matrix-word algebra "
     "(Q R -> M, Q^T Q -> I): the second necessary condition of a true tangent, and the reason covariances differentiate exactly."
     "  (5) Every loss_* constructor's default solve for Bayes' rule has a reverse-mode derivative wherever it has a value (known finding: the time-series loss defaults to an SVD least-squares solve)."
+    "  (6) The class of inputs a custom rule treats by its 'singular' convention contains rank-deficient non-zero matrices: the convention's tangent stays in the tangent space of the primal output, or the selecting test is taken per pivot (known finding: one reduction over the whole diagonal)."
+    "  (7) Reverse mode: every flow.while_loop outside the backend is the default of an injectable parameter, none is called directly (known finding: the doubling loop of exp_gram_cholesky)."
 )
 TRUSTED_VALUE_PRIMITIVES = ("lstsq_svd",)  # R-C16-5 is about the SVD-based solve
 LEVEL = "other"
 TECHNIQUE = "abstract interpretation of custom AD rules with a matrix-structure lattice and a free matrix-word algebra with rewriting; syntactic dominance + interpretation of flag-guarded stop_gradient sites; primitive-table check of zero-differentiability with sibling cross-check"
 LEVEL_TEXT = (
-    "Four necessary conditions only, each decided on the source for all inputs.  That JAX's own rules and their composition give the true "
+    "Necessary conditions only (seven rules), each decided on the source for all inputs.  That JAX's own rules and their composition give the true "
     "derivative values is a statement about XLA/JAX execution and is not claimed."
 )
 LEVEL_NOTE = (
     "Trusted structure facts: qr(M) = (Q orthonormal columns, R upper-triangular); triu/tril; products of like-triangular matrices stay triangular; "
-    "Q^T X is general; X - strictly_lower(X) is upper-triangular; a common matrix factor of a sum may be pulled out.  A rule that distinguishes input classes (where(all(diagonal(R) != 0), ., .), a static shape test) is judged per class; at a singular R the factorisation has no derivative and any finite convention is admitted."
+    "Q^T X is general; X - strictly_lower(X) is upper-triangular; a common matrix factor of a sum may be pulled out.  A rule that distinguishes input classes (where(all(diagonal(R) != 0), ., .), a static shape test) is judged per class; at a singular R the factorisation has no derivative and R-C16-1 / R-C16-4 admit any finite convention there; R-C16-6 asks that the convention is confined to where it is harmless."
 )
 
 ORDER = {"zero": 0, "diag": 1, "upper": 2, "lower": 2, "orth": 2, "general": 3}
@@ -247,6 +249,30 @@ def check_rule_cases(p, m, fn, rule):
             if not ok and sp == "upper" and provably_upper(tan):
                 ok, st = True, "upper (y R^-1 = X - strictly_lower(X) + upper words)"
             out.append((label, ok, f"primal output is {sp}, rule's primal {sr}, rule's tangent {st}: {T.show(tan, 4)}", kind))
+    return out
+
+
+def singular_scope(p, m, fn, rule):
+    """[(label, ok, detail)] -- the class of inputs a rule treats by its 'singular' convention contains matrices that are rank-deficient but not zero
+    (one exactly-zero pivot: an exact initial value next to diffuse derivatives).  There the code downstream still reads R block-wise as a triangular
+    factor, so a convention whose tangent leaves the tangent space of the primal output yields finite, wrong derivatives.  The convention is harmless only
+    if its tangent stays inside that space, or if the test that selects it is taken per pivot instead of over the whole diagonal."""
+    M, Md = T.atom("M"), T.atom("M_dot")
+    primal = eval_fn(p, m, fn, [M])
+    res = eval_fn(p, m, rule, [(M,), (Md,)])
+    if not (isinstance(res, (tuple, list)) and len(res) == 2):
+        return []
+    sp = struct(primal)
+    out = []
+    for label, kind, tan, guard in rule_cases(res[1]):
+        if kind != "singular":
+            continue
+        st = struct(tan)
+        inside = leq(st, sp) or (sp == "upper" and provably_upper(tan))
+        whole = is_regularity_test(guard)  # all(diagonal(R) != 0): one reduction over every pivot
+        ok = True if inside else (False if whole else None)
+        out.append((label, ok, f"the convention {T.show(tan, 3)} has a {st} tangent (primal output: {sp}); it is selected by {T.show(guard, 3)}"
+                    + (", a single test for the whole matrix: one vanishing pivot (rank-deficient, non-zero input) switches every column to the convention" if whole else "")))
     return out
 
 
@@ -580,12 +606,61 @@ def bad_jvp(primals, tangents):
 '''
 
 
+def _resolves_to_flow_while_loop(m, e):
+    """flow.while_loop through the module's own import table (aliases followed)."""
+    if isinstance(e, ast.Attribute) and e.attr == "while_loop" and isinstance(e.value, ast.Name):
+        imp = m.imports.get(e.value.id)
+        return bool(imp) and (imp[-1] == "flow" or str(imp[1]).endswith("backend.flow"))
+    if isinstance(e, ast.Name):
+        imp = m.imports.get(e.id)
+        return bool(imp) and imp[0] == "member" and str(imp[1]).endswith("backend.flow") and imp[2] == "while_loop"
+    return False
+
+
+def while_loop_rules(chk, S):
+    """Reverse mode cannot differentiate a loop whose trip count depends on values (jax raises).  The library's answer is injection: the adaptive loop and
+    the Gauss-Newton routine take ``while_loop`` as a parameter, so a bounded differentiable loop can be supplied.  A loop that is called directly has no such
+    way out: every reverse-mode derivative through its caller fails."""
+    r7 = chk.rule("R-C16-7", "reverse mode: every value-dependent loop outside the backend is an injectable parameter (flow.while_loop is a default of a constructor / factory parameter, never called directly)", floor=3)
+    p = S.p
+    injectable, direct = [], []
+    for m in p.modules.values():
+        if m.name.startswith("probdiffeq.backend"):
+            continue
+        parents = {}
+        for node in ast.walk(m.tree):
+            for ch in ast.iter_child_nodes(node):
+                parents[ch] = node
+        for node in ast.walk(m.tree):
+            if isinstance(node, (ast.FunctionDef, ast.Lambda)):
+                a = node.args
+                pos = a.posonlyargs + a.args
+                pairs = list(zip(pos[len(pos) - len(a.defaults):], a.defaults)) + [(k, d) for k, d in zip(a.kwonlyargs, a.kw_defaults) if d is not None]
+                for arg, d in pairs:
+                    if _resolves_to_flow_while_loop(m, d):
+                        injectable.append((m, node, arg.arg))
+            if isinstance(node, ast.Call) and _resolves_to_flow_while_loop(m, node.func):
+                cur, names = node, []
+                while cur in parents:
+                    cur = parents[cur]
+                    if isinstance(cur, (ast.FunctionDef, ast.ClassDef)):
+                        names.append(cur.name)
+                direct.append((m, node, ".".join(reversed(names))))
+    for m, node, arg in injectable:
+        r7.ok(f"{m.name}.{getattr(node, 'name', '<lambda>')}({arg}=flow.while_loop)", "the loop is a parameter: a differentiable replacement can be supplied", f"{m.relpath}:{node.lineno}")
+    for m, node, qual in direct:
+        r7.fail(f"{m.name}.{qual} calls flow.while_loop directly", f"{ast.unparse(node)[:160]}: a value-dependent trip count with no way to supply another loop -- jax.grad / jax.vjp through every caller raises "
+                   "'Reverse-mode differentiation does not work for lax.while_loop'", f"{m.relpath}:{node.lineno}", {})
+
+
 def run(chk, S: Session):
     _TRI.clear()
     chk.trust("qr(M) = (Q, R) with R upper-triangular", "triu / tril", "products of like-triangular matrices are triangular")
     r1 = chk.rule("R-C16-1", "custom differentiation rules return tangents inside the tangent space of their primal output (structure lattice)", floor=1)
     r2 = chk.rule("R-C16-2", "stop_gradient only directly behind a constructor flag; none executed with the flag off", floor=4)
     r4 = chk.rule("R-C16-4", "custom triangularisation rules are Gram-consistent: R^T R_dot + R_dot^T R = M^T M_dot + M_dot^T M (exact derivatives of every quantity that depends on R through R^T R)", floor=1)
+    r6 = chk.rule("R-C16-6", "the 'singular' convention of a custom rule is confined to inputs where it is harmless: its tangent stays in the tangent space of the primal output, or it is selected per pivot "
+                  "(rank-deficient non-zero factors -- exact initial values next to diffuse derivatives -- are inputs of this class)", floor=1)
     p = S.p
     rules = custom_rules(p)
     if not rules:
@@ -629,6 +704,14 @@ def run(chk, S: Session):
                         continue
                 r1.require(ok, construct, detail, f"custom rule {rule.name}: {detail} -- the tangent leaves the tangent space of the primal output, so derivatives through this function are not the true derivatives", where)
                 chk.sample({"rule": "R-C16-1", "function": construct, "analysis": detail})
+            try:
+                scope = singular_scope(p, m, fn, rule)
+                if not scope:
+                    r6.ok(f"{base} has no whole-matrix singular convention", "the rule distinguishes no class of inputs by a single regularity test", where)
+                for label, oks, ds in scope:
+                    r6.require(oks, f"{base} [{label}] convention confined to vanishing pivots", ds, f"custom rule {rule.name}: {ds} -- finite but wrong derivatives of everything that reads blocks of R", where)
+            except AnalysisError as e:
+                r6.unknown(f"{base} singular convention", str(e), where)
             if fn.name.startswith("qr"):
                 try:
                     gcases = check_gram_cases(p, m, fn, rule)
@@ -637,6 +720,7 @@ def run(chk, S: Session):
                 for label, okg, dg, kind in gcases:
                     construct = f"{base} Gram consistency" if (len(gcases) == 1 and kind == "all") else f"{base} Gram consistency [{label}]"
                     r4.require(okg, construct, dg, f"custom rule {rule.name}: {dg} -- derivatives of covariances R^T R computed through this rule are not the true derivatives", where)
+    while_loop_rules(chk, S)
     # ---------------- stop-gradient discipline (syntactic)
     sites = []
     for m in p.modules.values():
